@@ -94,6 +94,7 @@ func (c09) Gen(rng *rand.Rand, tier string, k int) *Case {
 	}
 	c.Lens = nil
 	ncalls := 2 + rng.Intn(3)
+	glitchy := rng.Intn(10) == 0
 	if deepTier && rng.Intn(3) == 0 {
 		ncalls = 5 + rng.Intn(4) // a worker pool's worth of calls alive at once
 	}
@@ -106,6 +107,9 @@ func (c09) Gen(rng *rand.Rand, tier string, k int) *Case {
 			n = 150
 		}
 		cs := CallSpec{Len: n, Shape: rng.Intn(NumShapes), DataSeed: rng.Int63n(1 << 30)}
+		if glitchy {
+			cs.Shape = ShapeGlitch // bars without a price (all zero): whatever a strategy does about them is the same for a fresh instance
+		}
 		if c.Family == "strat" && rng.Intn(4) == 0 && n > w {
 			cs.Report = true
 		}
